@@ -149,6 +149,13 @@ pub fn plan<'a>(ctx: &'a Ctx, rng: &mut Rng, tier: Tier) -> Plan<'a> {
             pool.extend(gen::sample_subsets(rng, &per, 3, if quick { 300 } else { 3000 }));
             let metaw = gen::words(&[".", "a", "\\", "d", "\u{ff9e}", "1"], 4);
             pool.extend(gen::sample_subsets(rng, &metaw, 2, if quick { 400 } else { 4000 }));
+            for unit in gen::REPEAT_UNITS {
+                for k in 2..=4usize {
+                    pool.push(vec![unit.repeat(k)]);
+                    pool.push(vec![format!("x{}y", unit.repeat(k))]);
+                    pool.push(vec![format!("{}z", unit.repeat(k)), format!("{}", unit.repeat(k + 1))]);
+                }
+            }
             let nested: Vec<String> = ["..a..ab..a..ab", "aabaabxaabaabx", "ababcababcababc", "aaaabaaaab", "1122112211", "x.x.yx.x.y"].iter().map(|s| s.to_string()).collect();
             for w in &nested {
                 pool.push(vec![w.clone()]);
